@@ -142,20 +142,100 @@ func nameEscapeSet(c *core.Ctx, o *core.Ob) core.ByteSet {
 func nameVerbatimSet(c *core.Ctx, o *core.Ob, shortPkg string) (V core.ByteSet, hashLiteral bool) {
 	fn := c.Prog.Func(shortPkg, "(*scanner).ReadName")
 	g := fn.Graph()
-	obj := localVar(fn, "b", 0)
-	defs := defVertices(g, obj)
-	if len(defs) == 0 {
-		core.Undecided("%s: byte variable has no definition", fn.Key)
+	// the byte under inspection, by role: a local byte variable that is handed
+	// to the result unchanged somewhere.  With a fast path in front of the
+	// general code there are several; the main one is the one whose '#' leads
+	// to the escape decoder, the others must keep a subset verbatim.
+	info := fn.Info()
+	type cand struct {
+		obj types.Object
+		def *core.V
+		V   core.ByteSet
 	}
+	var cands []cand
+	seenObj := map[types.Object]bool{}
+	for _, v := range g.Vs {
+		as, ok := v.AST.(*ast.AssignStmt)
+		if !ok || len(as.Rhs) != 1 || len(as.Lhs) == 0 {
+			continue
+		}
+		id, ok := ast.Unparen(as.Lhs[0]).(*ast.Ident)
+		if !ok {
+			continue
+		}
+		lv, ok := info.ObjectOf(id).(*types.Var)
+		if !ok || lv.IsField() || seenObj[lv] {
+			continue
+		}
+		if b, isB := lv.Type().Underlying().(*types.Basic); !isB || b.Kind() != types.Uint8 {
+			continue
+		}
+		// read from the input: an element of a buffer, or Peek/ReadByte
+		fromInput := false
+		switch r := ast.Unparen(as.Rhs[0]).(type) {
+		case *ast.IndexExpr:
+			fromInput = len(as.Lhs) == 1
+		case *ast.CallExpr:
+			k := core.CalleeKey(info, r)
+			fromInput = strings.HasSuffix(k, ".Peek") || strings.HasSuffix(k, ".ReadByte") || strings.HasSuffix(k, ".PeekByte")
+		}
+		if !fromInput || len(defVertices(g, lv)) != 1 {
+			continue
+		}
+		seenObj[lv] = true
+		cands = append(cands, cand{obj: lv, def: v})
+	}
+	if len(cands) == 0 {
+		core.Undecided("%s: no byte variable read from the input found", fn.Key)
+	}
+	reachesTryHex := func(cd cand) core.ByteSet {
+		env := byteEnvFor(c.Prog, fn, cd.obj)
+		var st []*core.V
+		for _, e := range cd.def.Succs {
+			st = append(st, e.To)
+		}
+		return env.ReachSet(g, st, func(v *core.V) bool {
+			if v.AST == nil {
+				return false
+			}
+			return len(core.CallsTo(info, v.AST, false, shortPkg+".(*scanner).tryHex")) > 0
+		}, func(v *core.V) bool { return v == cd.def })
+	}
+	main := 0
+	for i := range cands {
+		env := byteEnvFor(c.Prog, fn, cands[i].obj)
+		var st []*core.V
+		for _, e := range cands[i].def.Succs {
+			st = append(st, e.To)
+		}
+		cd := cands[i]
+		cands[i].V = env.ReachSetState(g, st, func(v *core.V, bs *core.ByteState) bool { return verbatimAt(info, v, cd.obj, bs) }, func(v *core.V) bool { return v == cd.def })
+		if reachesTryHex(cands[i])['#'] {
+			main = i
+		}
+	}
+	for i := range cands {
+		if i == main {
+			continue
+		}
+		o.At(fn.Site(cands[i].def.AST, "byte under inspection (fast path)"))
+		for b := 0; b < 256; b++ {
+			if cands[i].V[b] && !cands[main].V[b] {
+				o.Fail("%s: the path through %s keeps byte %#02x verbatim, the general path does not", fn.Key, cands[i].obj.Name(), b)
+				break
+			}
+		}
+	}
+	obj := cands[main].obj
 	env := byteEnvFor(c.Prog, fn, obj)
-	def := defs[0]
+	def := cands[main].def
 	o.At(fn.Site(def.AST, "byte under inspection"))
 	var starts []*core.V
 	for _, e := range def.Succs {
 		starts = append(starts, e.To)
 	}
 	isDef := func(v *core.V) bool { return v == def }
-	V = env.ReachSetState(g, starts, func(v *core.V, st *core.ByteState) bool { return verbatimAt(fn.Info(), v, obj, st) }, isDef)
+	V = cands[main].V
 	// '#' not followed by hex digits must be kept as a literal '#'
 	hs := env.ReachSetState(g, starts, func(v *core.V, st *core.ByteState) bool {
 		k, ok := constAt(fn.Info(), v, st)
@@ -196,13 +276,19 @@ func ruleTryHex(c *core.Ctx, o *core.Ob, shortPkg string) {
 	obj := hd.Info().ObjectOf(hd.Decl.Type.Params.List[0].Names[0])
 	env := byteEnvFor(c.Prog, hd, obj)
 	// accepted = reaches a return whose value is not the constant 255
-	acc := env.ReachSet(g, []*core.V{g.Entry}, func(v *core.V) bool {
+	// (the value may be a constant, a local, or an entry of a constant table)
+	acc := env.ReachSetState(g, []*core.V{g.Entry}, func(v *core.V, st *core.ByteState) bool {
 		r, ok := v.AST.(*ast.ReturnStmt)
 		if !ok || len(r.Results) != 1 {
 			return false
 		}
-		k, isConst := core.IntConst(hd.Info(), r.Results[0])
-		return !(isConst && k == 255)
+		if k, isConst := core.IntConst(hd.Info(), r.Results[0]); isConst {
+			return k != 255
+		}
+		if k, known := st.Int(r.Results[0]); known && !st.IsByte(r.Results[0]) {
+			return k != 255
+		}
+		return true
 	}, nil)
 	want := core.BytesOf("0123456789abcdefABCDEF")
 	o.At(hd.Site(hd.Decl, "hexDigit"))
@@ -444,6 +530,34 @@ func stringReaderTable(c *core.Ctx, o *core.Ob, shortPkg string) readTable {
 	envE := byteEnvFor(c.Prog, fn, esc.obj)
 	rt.EscIdent = envE.ReachSetState(g, starts(esc.v), func(v *core.V, st *core.ByteState) bool { return verbatimAt(fn.Info(), v, esc.obj, st) }, isDef)
 	consts := byteConstsIn(fn.Info(), g.ReachFrom(esc.v, false, core.AvoidVs(outer.v)))
+	// constants that come out of a lookup table indexed by the escape letter
+	for v := range g.ReachFrom(esc.v, false, core.AvoidVs(outer.v)) {
+		var root ast.Node = v.AST
+		if root == nil && v.Cond != nil && v.Cond.Expr != nil {
+			root = v.Cond.Expr
+		}
+		if root == nil {
+			continue
+		}
+		if _, isLoop := root.(*ast.ForStmt); isLoop {
+			continue
+		}
+		if _, isLoop := root.(*ast.RangeStmt); isLoop {
+			continue
+		}
+		ast.Inspect(root, func(n ast.Node) bool {
+			x, ok := n.(ast.Expr)
+			if !ok {
+				return true
+			}
+			for _, k := range tableValues(c.Prog, fn.Info(), x) {
+				if k >= 0 && k < 256 {
+					consts[k] = true
+				}
+			}
+			return true
+		})
+	}
 	for k := range consts {
 		k := k
 		s := envE.ReachSetState(g, starts(esc.v), func(v *core.V, st *core.ByteState) bool {
@@ -472,9 +586,36 @@ func stringReaderTable(c *core.Ctx, o *core.Ob, shortPkg string) readTable {
 		if _, isConst := core.IntConst(fn.Info(), call.Args[1]); isConst {
 			return false
 		}
+		if tableValues(c.Prog, fn.Info(), call.Args[1]) != nil {
+			return false // a replacement byte looked up in a table, not a computed code
+		}
 		id, isID := call.Args[1].(*ast.Ident)
 		if isID && (fn.Info().ObjectOf(id) == esc.obj || fn.Info().ObjectOf(id) == outer.obj) {
 			return false
+		}
+		if isID {
+			// a local that only ever holds the result of a table lookup (c := stringEscape[esc])
+			if obj := fn.Info().ObjectOf(id); obj != nil {
+				defs := defVertices(g, obj)
+				fromTable := len(defs) > 0
+				for _, d := range defs {
+					okDef := false
+					switch x := d.AST.(type) {
+					case *ast.AssignStmt:
+						for i, l := range x.Lhs {
+							if core.ObjOf(fn.Info(), l) == obj && len(x.Lhs) == len(x.Rhs) && tableValues(c.Prog, fn.Info(), x.Rhs[i]) != nil {
+								okDef = true
+							}
+						}
+					}
+					if !okDef {
+						fromTable = false
+					}
+				}
+				if fromTable {
+					return false
+				}
+			}
 		}
 		return true
 	}, isDef)
@@ -551,4 +692,24 @@ func ruleStringEscapes(c *core.Ctx, rule, readerPkg string) {
 			o.Fail("%s.ReadString: an unescaped CR is not normalised to LF (7.3.4.2)", readerPkg)
 		}
 	})
+}
+
+// tableValues: e is table[i] or table[i].field for a package-level table of
+// constants; the values the table holds (nil otherwise).
+func tableValues(p *core.Program, info *types.Info, e ast.Expr) []int64 {
+	e = ast.Unparen(e)
+	if sel, ok := e.(*ast.SelectorExpr); ok {
+		if ix, ok := ast.Unparen(sel.X).(*ast.IndexExpr); ok {
+			if obj := core.ObjOf(info, ix.X); obj != nil {
+				return p.ConstFieldTableOf(obj, sel.Sel.Name)
+			}
+		}
+		return nil
+	}
+	if ix, ok := e.(*ast.IndexExpr); ok {
+		if obj := core.ObjOf(info, ix.X); obj != nil {
+			return p.ConstTableOf(obj)
+		}
+	}
+	return nil
 }
